@@ -300,7 +300,8 @@ class Application(object):
                     if route.slash_mode == S_REDIRECT:
                         parts = [request.url_root.rstrip('/'),
                                  url_quote(norm_path, safe='/'), '?',
-                                 request.query_string.decode('utf8')]
+                                 url_quote(request.query_string,
+                                           safe="/:?#[]@!$&'()*+,;=%")]
                         return redirect(''.join(parts))  # TODO: error_handler
                     elif route.slash_mode == S_STRICT:
                         nf_exc = err_handler.not_found_type(request=request,
